@@ -38,8 +38,11 @@ def _wchoice(rng, table):
 # ------------------------------------------------------------------ generation
 
 
-def gen_move(rng, t, last):
-    kind = _wchoice(rng, (("generic", 8), ("zero", 1), ("axis", 2), ("neg_last", 2), ("neg_total", 2), ("int", 2)))
+def gen_move(rng, t, last, spec=None):
+    kind = _wchoice(rng, (("generic", 8), ("zero", 1), ("axis", 2), ("neg_last", 2), ("neg_total", 2), ("int", 2), ("self_overlap", 3)))
+    fpts = X.features(spec)["pts"] if (spec is not None and kind == "self_overlap") else []
+    if kind == "self_overlap" and len(fpts) < 2:
+        kind = "generic"
     if any(abs(c) > 8 for c in t):
         kind = "neg_total"
     if kind == "neg_last" and last is None:
@@ -54,6 +57,11 @@ def gen_move(rng, t, last):
         ints = rng.random() < 0.5
     elif kind == "axis":
         v = X.mul(F(rng.choice([-8, -4, -2, -1, 1, 2, 4, 6]), 4), rng.choice(X.AXES))
+    elif kind == "self_overlap":
+        # the offset between two of the object's own feature points (edge vectors,
+        # diagonals): the moved object lands on parts of its own previous position
+        a, b = rng.sample(fpts, 2)
+        v = X.sub(a, b)
     elif kind == "neg_last":
         v = X.mul(F(-1), last)
     elif kind == "neg_total":
@@ -89,7 +97,7 @@ def generate(rng, k, tier="quick"):
         if rng.random() < 0.3:
             ops.append({"op": "DEEPCOPY"})
             copies.append(t)
-        op, v = gen_move(rng, t, last)
+        op, v = gen_move(rng, t, last, spec)
         ops.append(op)
         t, last, have_ret = X.add(t, v), v, True
         if rng.random() < (0.6 if heavy else 0.8):
